@@ -27,7 +27,7 @@ from simkit.rng import seed_globals  # noqa: E402
 from simkit.world import BudgetExceeded, InvalidScenario, Monitor, Violation, repo_exception_sig, result  # noqa: E402
 
 PROPERTY = "C15"
-RUNS = {"quick": 320, "thorough": 60_000}
+RUNS = {"quick": 500, "thorough": 60_000}
 WALL = {"quick": 55, "thorough": 1500}
 BATCH = {"quick": 8, "thorough": 50}
 SELFTEST_RUNS = 6
